@@ -213,32 +213,32 @@ type rpcState struct {
 }
 
 type run struct {
-	e       *core.Env
-	sc      *Scenario
-	net     *simnet.Net
-	led     *tap.Ledger
-	rpcs    map[uint32]*rpcState
-	ids     []uint32
-	faulty  bool
-	trace   bool
-	cc      *grpc.ClientConn
-	peers   []*peerConn
-	pairs   []*simnet.Pair
-	views   map[int]*cview
-	helpers sync.WaitGroup
+	e        *core.Env
+	sc       *Scenario
+	net      *simnet.Net
+	led      *tap.Ledger
+	rpcs     map[uint32]*rpcState
+	ids      []uint32
+	faulty   bool
+	trace    bool
+	cc       *grpc.ClientConn
+	peers    []*peerConn
+	pairs    []*simnet.Pair
+	views    map[int]*cview
+	helpers  sync.WaitGroup
 	attempts map[uint32]int
-	lis     *simnet.Listener
+	lis      *simnet.Listener
 	// quiescer
-	qsig    chan struct{}
-	qstop   chan struct{}
-	qdone   chan struct{}
-	qwant   bool
-	nquiesce int
-	hooks   []func() // run at every quiescent point
-	dlDue   []uint32
+	qsig      chan struct{}
+	qstop     chan struct{}
+	qdone     chan struct{}
+	qwant     bool
+	nquiesce  int
+	hooks     []func() // run at every quiescent point
+	dlDue     []uint32
 	cntPulled map[cntKey]int64
-	abrupt  bool // the peer closed a connection abruptly on purpose
-	spies   map[int]*spyConn
+	abrupt    bool // the peer closed a connection abruptly on purpose
+	spies     map[int]*spyConn
 	t0        time.Time
 	closingAt time.Time
 }
@@ -567,9 +567,19 @@ func (w *run) settle() bool {
 		if d <= 0 && !pending && !moved && !spinSleeping() {
 			quiet++
 			if quiet >= 6 {
-				// nothing has happened for six rounds and nothing is pending now:
-				// the caller evaluates its oracles at this very point
-				return true
+				// nothing has happened for six rounds and nothing is pending now.
+				// runtime.Stack (spinSleeping) stops the world and may leave a
+				// preemption request on this goroutine, which would show up as an
+				// extra, timing-dependent reschedule later: block once more for a
+				// nanosecond so that it is absorbed here, then make sure that still
+				// nothing has moved. The caller evaluates its oracles at this point.
+				time.Sleep(time.Nanosecond)
+				synctest.Wait()
+				if w.e.Seq == lastSeq && w.net.InFlightDelay() <= 0 {
+					return true
+				}
+				quiet = 0
+				continue
 			}
 		} else {
 			quiet = 0
@@ -865,28 +875,28 @@ func (w *run) noteRecv(st *rpcState, b []byte, cs grpc.ClientStream) {
 // the shared ledger does not implement) ----
 
 type cstream struct {
-	id       uint32
-	rpc      uint32
-	haveRPC  bool
-	hdrSeq   uint64
-	hdrAt    time.Time
-	sent     int64
-	cEnded   bool
-	cRst     bool
-	pEndedD  bool
-	pRstD    bool
-	pfx      [5]byte
-	pfxN     int
-	msgLen   int
-	msgOff   int
-	inMsg    bool
-	lateGA   bool // HEADERS written after a GOAWAY had been delivered
+	id      uint32
+	rpc     uint32
+	haveRPC bool
+	hdrSeq  uint64
+	hdrAt   time.Time
+	sent    int64
+	cEnded  bool
+	cRst    bool
+	pEndedD bool
+	pRstD   bool
+	pfx     [5]byte
+	pfxN    int
+	msgLen  int
+	msgOff  int
+	inMsg   bool
+	lateGA  bool // HEADERS written after a GOAWAY had been delivered
 	// fairness (quiet-peer phase)
 	lastIdx   int
 	part      bool
 	partSince int
-	frames   int
-	closedAt time.Time
+	frames    int
+	closedAt  time.Time
 }
 
 // openForClient: the stream still counts against MAX_CONCURRENT_STREAMS from
